@@ -16,7 +16,13 @@ func driveExplore(seed int64, tier, out, replay string) {
 	b, _ := os.ReadFile(os.Getenv("EXPLORE_OPS"))
 	json.Unmarshal(b, &ops)
 	for _, cfg := range []RigConfig{{}} {
-		r, err := NewRig(handWorld(), cfg)
+		w := handWorld()
+		if ws := os.Getenv("EXPLORE_WORLD"); ws != "" {
+			var seedv int64
+			fmt.Sscan(ws, &seedv)
+			w = worldFor(seedv, os.Getenv("EXPLORE_DOMAIN"))
+		}
+		r, err := NewRig(w, cfg)
 		if err != nil {
 			fmt.Println("rig:", err)
 			return
@@ -28,6 +34,11 @@ func driveExplore(seed int64, tier, out, replay string) {
 			}
 			what, resp := compareFed(r, op)
 			sub := subrequestProblems(r.Logs())
+			if os.Getenv("EXPLORE_LOG") != "" {
+				for _, l := range r.Logs() {
+					fmt.Printf("    REQ %s call=%d %s vars=%v -> %s\n", l.URL, l.Call, shortStr(l.Query, 200), l.Variables, shortStr(fmt.Sprint(l.Answer), 200))
+				}
+			}
 			fmt.Printf("[%d] %s\n    verdict: %s\n    subreq: %s\n    resp: %s\n", i, op.Query, shortStr(what, 300), shortStr(sub, 200), shortStr(fmt.Sprint(resp), 200))
 		}
 	}
